@@ -559,6 +559,120 @@ fn special_scenarios(rep: &Report) {
         rep.distinct(Fnv::new().str("race-shutdown").u64(round).finish());
         drop(q);
     }
+    // (iv) a request made on the live queue is still pending, with a backlog behind a slow stream,
+    // when shutdown begins: its completion must still mean "backlog written and flushed". The
+    // stream is fed one entry at a time and the future polled at every step.
+    let combos: &[(u32, u32, u64, bool)] = if is_miri() {
+        &[(40, 0, 1, false)]
+    } else {
+        &[(5, 0, 1, false), (40, 0, 1, false), (40, 0, 1, true), (40, 31, 1, false), (40, 33, 1, true), (100, 1, 1, false),
+          (100, 64, 1, true), (70, 0, 59_000_000, false), (70, 32, 20_000, true), (33, 32, 1, false), (300, 0, 1, false)]
+    };
+    for &(backlog, fed_before, flush_us, boxed) in combos {
+        rep.eval();
+        let sh = StreamShared::new(backlog as u64);
+        let (q, handle) = build(&sh, 512, Duration::from_micros(flush_us), boxed);
+        sh.set_fuel(Some(0));
+        for s in 0..backlog {
+            q.append(IdEntry::new(0, s));
+        }
+        let mut f = Box::pin(q.flush_async());
+        let mut ready = poll_once(f.as_mut()).is_ready();
+        let wait_step = |target: u64, f: &mut std::pin::Pin<Box<FlushWait>>, ready: &mut bool| {
+            progress_wait(
+                || {
+                    if !*ready {
+                        *ready = poll_once(f.as_mut()).is_ready();
+                    }
+                    *ready || (sh.consumed_ids.load(Ordering::SeqCst) >= target && (sh.blocked_next.load(Ordering::SeqCst) || target == backlog as u64))
+                },
+                default_stall(),
+            )
+        };
+        let mut fed = 0u64;
+        let mut stalled = false;
+        while fed < fed_before as u64 && !ready {
+            sh.add_fuel(1);
+            fed += 1;
+            stalled |= !wait_step(fed, &mut f, &mut ready);
+        }
+        let shut = std::thread::spawn(move || handle.shut_down());
+        if !is_miri() {
+            std::thread::sleep(Duration::from_millis(2));
+        }
+        let mut len_after = None;
+        while !stalled {
+            if ready && len_after.is_none() {
+                len_after = Some(sh.log_len());
+            }
+            if fed < backlog as u64 {
+                sh.add_fuel(1);
+                fed += 1;
+                stalled |= !wait_step(fed, &mut f, &mut ready);
+            } else if ready {
+                break;
+            } else {
+                stalled |= !progress_wait(|| { ready = ready || poll_once(f.as_mut()).is_ready(); ready }, default_stall());
+            }
+        }
+        sh.open_all();
+        if stalled {
+            rep.violation(
+                "flush-pending-at-shutdown-never-completed",
+                json!({"backlog": backlog, "fed_before_shutdown": fed_before, "flush_us": flush_us, "boxed": boxed, "fed": fed,
+                       "consumed": sh.consumed_ids.load(Ordering::SeqCst), "future_ready": ready}),
+            );
+            return;
+        }
+        let _ = shut.join();
+        let log = sh.log();
+        let ctx = format!("pending-at-shutdown backlog={backlog} fed_before={fed_before} flush_us={flush_us} boxed={boxed}");
+        let ob = check_barrier(&[FlushRec { snap: vec![backlog], len_after: len_after.unwrap_or(log.len()), gated: true }], &log, false, &ctx, rep);
+        rep.count("special_pending_at_shutdown_obligations", ob);
+        rep.distinct(Fnv::new().str("pending-at-shutdown").u64(backlog as u64).u64(fed_before as u64).u64(flush_us).u64(boxed as u64).finish());
+        drop(q);
+    }
+    // (v) thousands of requests outstanding at once while the writer is held inside next(): none
+    // may complete before the gate opens, and all complete afterwards
+    for (round, &burst) in (if is_miri() { &[200usize][..] } else { &[1500usize, 5000, 20_000][..] }).iter().enumerate() {
+        rep.eval();
+        let sh = StreamShared::new(round as u64);
+        let (q, handle) = build(&sh, 16, Duration::from_micros(if round % 2 == 0 { 1 } else { 5_000 }), round % 2 == 1);
+        sh.set_fuel(Some(0));
+        sh.close_flush_gate(true);
+        q.append(IdEntry::new(0, 0));
+        let _ = progress_wait(|| sh.blocked_next.load(Ordering::SeqCst), Duration::from_secs(if is_miri() { 60 } else { 5 }));
+        q.append(IdEntry::new(0, 1));
+        let mut futs: Vec<_> = (0..burst).map(|_| Box::pin(q.flush_async())).collect();
+        let early: Vec<usize> = futs.iter_mut().enumerate().filter_map(|(i, f)| poll_once(f.as_mut()).is_ready().then_some(i)).collect();
+        if !early.is_empty() {
+            rep.violation(
+                "flush-completed-while-stream-gated",
+                json!({"what": "with the writer held inside stream.next() and nothing written, flush futures of a burst of outstanding requests were Ready on their first poll",
+                       "burst": burst, "ready_count": early.len(), "first_ready_index": early[0], "log": sh.log().iter().map(|e| format!("{e:?}")).collect::<Vec<_>>()}),
+            );
+            sh.open_all();
+            handle.forget();
+            return;
+        }
+        sh.open_all();
+        let all = run_guarded(move || {
+            for f in futs {
+                block_on(f);
+            }
+        });
+        if all.is_none() {
+            rep.violation("flush-never-completed", json!({"what": "a burst of outstanding flush requests did not all complete after the gates opened", "burst": burst}));
+            handle.forget();
+            return;
+        }
+        let len_after = sh.log_len();
+        check_barrier(&[FlushRec { snap: vec![2], len_after, gated: true }], &sh.log(), false, &format!("burst-of-{burst}-requests"), rep);
+        rep.count("special_burst_requests", burst as u64);
+        rep.distinct(Fnv::new().str("burst").u64(burst as u64).finish());
+        drop(q);
+        handle.shut_down();
+    }
 }
 
 // ------------------------------------------------------------------------------------------
